@@ -14,6 +14,8 @@ REPLAY_DIR = os.path.join(EVIDENCE_DIR, "replay")
 KNOWN = os.path.join(VERIF, "known_findings.json")
 
 RULES = {}  # rule id -> (function, doc, properties)
+RULES["TW"] = {"fn": lambda F, R: None, "props": [], "floor": None,
+               "doc": "compile-fail witnesses (thorough tier): using a File/Directory/Volume after close() (E0382), freeing the manager while a wrapper borrows it (E0505), passing a RawFile as a RawDirectory (E0308), touching VolumeManager.data / BlockCache.block_idx / LfnBuffer.free (E0616), forging handles (E0603/E0423), aliasing the LFN storage (E0499) do not compile; each with a compiling twin"}
 
 
 def rule(rid, props, floor=None, doc=""):
@@ -197,6 +199,11 @@ def check_property(prop, rule_ids, tier, level="other", explanation="", assumpti
                 extra = post(F, tier)
                 if extra:
                     instances.extend(extra)
+            if cfg == "log" and tier == "thorough" and prop in ("C08", "C17") and not os.environ.get("VERIF_NO_WITNESS"):
+                from . import witness
+                instances.extend(witness.run(repo, prop))
+                if "TW" not in rule_ids:
+                    rule_ids = list(rule_ids) + ["TW"]
     except factsmod.ExtractError as e:
         print("ERROR: %s" % e)
         return 2
